@@ -1,5 +1,6 @@
 import SJ.Props.C14
 import SJ.Props.TypedDepth
+import SJ.Props.TypedUtf8
 #print axioms SJ.Props.C14.c14_again_once
 #print axioms SJ.Props.C14.c14_depth_bounded
 #print axioms SJ.Props.C14.c14_limit_hit
@@ -17,3 +18,4 @@ import SJ.Props.TypedDepth
 #print axioms SJ.Props.TypedDepth.c14_typed_wrapper_depth
 #print axioms SJ.Props.C14.c14_stream_depth_restored
 #print axioms SJ.Props.C14.c14_stream_item_budget
+#print axioms SJ.Props.TypedUtf8.c14_typed_utf8
